@@ -184,7 +184,7 @@ def run_case(case, ctx):
 
 
 SINGLE = ['ffill', 'bfill', 0.0, 7.5, 'nona', 'fnna', 'ffill_na', 'ffill_0']
-LISTS = [['ffill', 'bfill'], ['bfill', 'ffill'], ['ffill', 0.0], ['fnna', 'ffill'], ['nona'], ['ffill', 'nona'], ['ffill_na', 'bfill'], ['bfill', 0.0], ['fnna', 'bfill', 'ffill']]
+LISTS = [['ffill', 'ffill'], ['bfill', 'bfill'], ['ffill', 'bfill', 'bfill'], ['ffill', 'ffill', 'ffill'], ['ffill', 'bfill'], ['bfill', 'ffill'], ['ffill', 0.0], ['fnna', 'ffill'], ['nona'], ['ffill', 'nona'], ['ffill_na', 'bfill'], ['bfill', 0.0], ['fnna', 'bfill', 'ffill']]
 
 
 def mask_cols(mask, base=1):
